@@ -56,5 +56,6 @@ Holds(prop, o) == CASE prop = "C01" -> RevExact(o)
                     [] prop = "C10" -> Reusable(o)
                     [] prop = "C08" -> LinearAtZero(o)
                     \* C14 / C17 on the `extend` and `where` families: a derivative declared zero (None) is an exact zero *in the argument's space*
-                    [] prop \in {"C14", "C17"} -> RevExact(o) /\ FwdExact(o) /\ GradInArgSpace(o)
+                    \* (in the extend family every requested derivative has a registered rule or a registered None: raising is not "unsupported")
+                    [] prop \in {"C14", "C17"} -> RevExact(o) /\ FwdExact(o) /\ GradInArgSpace(o) /\ (o.fam = "extend" => (~o.vjp_raised /\ ~o.jvp_raised))
 =============================================================================
